@@ -152,6 +152,19 @@ func c18Case(w *core.W, in []byte, entry string) {
 		w.Violate(bv("no-panic", entry, in, fmt.Sprintf("Len/Example/GetAST/OpenAPI panicked: %v", rec), map[string]string{"site": site}))
 		return
 	}
+	// the caller owns the bytes it got: writing to them must not change what the
+	// schema answers next
+	if e2 == nil {
+		first := string(ex)
+		for i := range ex {
+			ex[i] = 'X'
+		}
+		again, e5 := rs.Example()
+		if e5 != nil || string(again) != first {
+			w.Violate(bv("example-stable-after-caller-write", entry, in, fmt.Sprintf("Example()=%q; after the caller overwrote the returned bytes Example()=%q err=%v", first, again, e5), nil))
+		}
+		ex = []byte(first)
+	}
 	if e1 != nil || int(l) != end+1 {
 		w.Violate(bv("len", entry, in, fmt.Sprintf("Len()=%d err=%v, delimited length is %d", l, e1, end+1), nil))
 	}
